@@ -349,6 +349,11 @@ pub enum Ending {
     AppAbandon,
     /// the target closes its socket outright as soon as it has written everything
     TargetAbandon,
+    /// the application writes everything and then aborts: the RST follows the data it has put on the wire (what a kernel
+    /// sends when a socket is closed with unread input), so the proxy reads all of it and then ECONNRESET
+    AppResetAfterWrite,
+    /// the same for the target
+    TargetResetAfterWrite,
 }
 
 #[derive(Clone, Debug, Serialize, Deserialize, PartialEq)]
